@@ -212,6 +212,16 @@ func (self *Analyzer) analyzeParams(params []pAst.FnParam) []ast.AnalyzedFnParam
 		isSingletonExtractor := param.Type.Kind() == pAst.SingletonReferenceParserTypeKind
 		singletonIdent := ""
 
+		// Singleton extractions and normal parameters share the name space of the function's parameters.
+		if _, duplicate := existentParams[param.Ident.Ident()]; duplicate {
+			self.error(
+				fmt.Sprintf("Duplicate declaration of parameter '%s'", param.Ident.Ident()),
+				nil,
+				param.Span,
+			)
+		}
+		existentParams[param.Ident.Ident()] = struct{}{}
+
 		if isSingletonExtractor {
 			typ := param.Type.(pAst.SingletonReferenceType)
 			singletonIdent = typ.Ident.Ident()
@@ -258,17 +268,6 @@ func (self *Analyzer) analyzeParams(params []pAst.FnParam) []ast.AnalyzedFnParam
 			existentSingletons[singleton] = struct{}{}
 		} else {
 			encounteredNonSingletonParam = true
-
-			if _, duplicate := existentParams[param.Ident.Ident()]; duplicate {
-				self.error(
-					fmt.Sprintf("Duplicate declaration of parameter '%s'", param.Ident.Ident()),
-					nil,
-					param.Span,
-				)
-			}
-
-			// add this param to the set of existent params
-			existentParams[param.Ident.Ident()] = struct{}{}
 		}
 
 		newType := self.ConvertType(param.Type, true)
